@@ -691,6 +691,8 @@ pub fn run_scenario(req: &Value) -> Value {
 			"base": st.base,
 			"accounts": st.accts.iter().map(|a| json!({"id": a.id, "thumb": a.thumb, "contacts": a.contacts, "eab_kid": a.eab_kid, "known": a.known, "registrations": a.registrations, "status": a.status})).collect::<Vec<Value>>(),
 			"orders": st.orders.iter().map(|o| json!({"id": o.id, "acct": o.acct, "status": o.status, "idents": o.idents, "csr_spki_sha256": o.csr_spki_sha256, "cert_sha256": o.cert_pem.as_ref().map(|p| cu::hexs(&cu::sha256(p.as_bytes())))})).collect::<Vec<Value>>(),
+			"authzs": st.authzs.iter().map(|a| json!({"id": a.id, "acct": a.acct, "type": a.itype, "value": a.value, "wildcard": a.wildcard, "status": a.status,
+				"challs": a.challs.iter().map(|c| json!({"id": c.id, "type": c.ctype, "token": c.token, "status": c.status})).collect::<Vec<Value>>()})).collect::<Vec<Value>>(),
 			"nonces_issued": st.nonces.len(),
 		}));
 	}
